@@ -384,6 +384,59 @@ def h_parse_file(eng):
     eng.prove("parsefile.none_exactly_when_the_file_has_a_parse_error", z3.BoolVal((r is tree) == (outcome == "tree") and (r is None) == (outcome != "tree")))
 
 
+def h_parse_file_per_invocation(eng):
+    """'For every invocation': what parse_file returns for a path is the file AS IT IS at that call -- a second invocation in the same
+    process (the file edited in between, or not) gets a fresh parse, never an object or verdict remembered from an earlier call
+    (parse_all merges the returned trees in place, so a remembered tree would also carry classes of the earlier invocation)."""
+    G, logging = setup(eng)
+    first = ["tree", "syntax-error"][eng.choice(2)]
+    second = ["tree", "syntax-error"][eng.choice(2)]
+    eng.input("file_at_first_invocation", first)
+    eng.input("file_at_second_invocation", second)
+    state = {"outcome": first, "parses": 0}
+    trees = []
+
+    def parse(eng, text):
+        state["parses"] += 1
+        if state["outcome"] == "syntax-error":
+            return None
+        t = VObj(VClass("Tree"))
+        t.cls.attrs["to_json"] = _m(lambda eng, selfobj, *a: VDict())
+        trees.append(t)
+        return t
+    pm = ModuleStub("pymoca.parser", {"parse": stub(parse)})
+    eng.ext_modules["pymoca.parser"] = pm
+    eng.ext_modules["pymoca"].attrs["parser"] = pm
+    eng.ext_modules["json"] = ModuleStub("json", {"dumps": stub(lambda eng, *a, **k: "json")})
+
+    class F(Ext):
+        def sym_getattr(self, eng, name):
+            if name == "__enter__":
+                return stub(lambda eng: self)
+            if name == "__exit__":
+                return stub(lambda eng, *a: False)
+            if name == "read":
+                return stub(lambda eng: "text")
+            raise Unsupported("file.%s" % name)
+
+    class P(PathStub):
+        def sym_getattr(self, eng, name):
+            if name == "open":
+                return stub(lambda eng, *a, **k: F())
+            return PathStub.sym_getattr(self, eng, name)
+    f = eng.find_function(MOD, "parse_file")
+    try:
+        r1 = eng.call(f, [P(eng, "a.mo")], {})
+        state["outcome"] = second
+        r2 = eng.call(f, [P(eng, "a.mo")], {})
+    except PyRaise as e:
+        eng.prove("parsefile.second_invocation_reflects_the_file_as_it_is_now", False, exc=repr(e.exc))
+        return
+    eng.cover("parsefile.twice")
+    ok = ((r2 is None) == (second == "syntax-error")) and (r2 is None or (r2 is not r1 and any(r2 is t for t in trees)))
+    eng.prove("parsefile.second_invocation_reflects_the_file_as_it_is_now", z3.BoolVal(bool(ok)), parses=state["parses"])
+
+
 def _m(fn):
     fn._pyvc_method = True
     return fn
@@ -425,9 +478,9 @@ def _parse_all(eng):
     return h_compiler_file_loop(eng)
 
 
-HARNESSES = [("tools.compiler.main", h_main), ("tools.compiler.translate", h_translate), ("tools.compiler.parse_file", h_parse_file),
+HARNESSES = [("tools.compiler.main", h_main), ("tools.compiler.translate", h_translate), ("tools.compiler.parse_file", h_parse_file), ("tools.compiler.parse_file in two invocations of one process", h_parse_file_per_invocation),
              ("tools.compiler.flatten_class", h_flatten_class), ("tools.compiler.parse_all / list_modelica_files", _parse_all)]
-EXPECTED_COVER = {"main.exits", "main.returns", "translate.returns", "parsefile.returns", "flattenclass.done", "fileloop.compiler"}
+EXPECTED_COVER = {"main.exits", "main.returns", "translate.returns", "parsefile.returns", "parsefile.twice", "flattenclass.done", "fileloop.compiler"}
 BOUNDED = True
 LEVEL = "proof"
 TRUSTED = ["pyvc VC generator", "z3 5.1.0",
